@@ -12,7 +12,7 @@ UNITS = [
     flow.Unit('riemann-geneos-real-code', groups=[], props=[], oracle=RO.gen_sym_oracle, always_oracle=True,
               note='general-EOS driver (outside the translated subset: root finding + interpolation from its own grid): a problem, its mirror image and a '
                    'boosted copy are solved by the real GenEOS_Solver and compared away from the wave positions, every wave pattern with moving contacts'),
-    flow.Unit('burn-times', groups=[], props=['props/C09_burn.v'], custom_corr=BC.unit_corr, oracle=BC.sym_oracle),
+    flow.Unit('burn-times', groups=[], props=['props/C09_burn.v', 'props/C09_k3.v'], custom_corr=BC.unit_corr, oracle=BC.sym_oracle),
     flow.Unit('burn-times-real-code', groups=[], props=[], oracle=BC.sym_oracle, always_oracle=True,
               note='rotations / reflections / rigid motions of the burn-time solvers on the real code (Kenamond 1-3 in 2-D and 3-D, DSD cylindrical expansion)'),
 ]
